@@ -3,7 +3,8 @@
   opsLoopsReversed        `for s in reversed(shape)` in BOTH `batchify` and `unbatchify` (nesting order)
   opsNumStartsDepotEnvs   the env-name list of `get_num_starts` whose members lose the depot (`num_starts - 1`)
   opsNoDepotStartEnvs     the env-name list of `select_start_nodes` whose members start at index 0 (`% num_loc`)
-  opsOpResampleCmp        operator of OP's resampling test `mask[..., 1:].float().sum(-1) < num_starts`
+  opsOpClampMin           the constant of OP's `feasible.sum(-1, keepdim=True).clamp(min=1)` (cycle length floor)
+  opsOpArgsortStable      OP's `torch.argsort((~feasible).int(), dim=-1, stable=True)` (feasible nodes ascending)
   opsSampleNReplaceCmp    operator of `n_valid_actions < n` in `sample_n_random_actions`
 
 The Lean model (`Rl4co/Train/{Batchify,Select}.lean`) takes them from `Params`; the C12 theorems unfold the
@@ -89,9 +90,39 @@ def register(ex):
              "utils/ops.py:get_num_starts  `elif env_name in [...]: num_starts - 1`", numstarts_list)
     ex.probe("opsNoDepotStartEnvs", "List String", '["tsp", "atsp", "flp", "mcp"]',
              "utils/ops.py:select_start_nodes  `if env.name in [...]` (no `+ 1`)", nodepot_list)
-    ex.probe("opsOpResampleCmp", "Cmp", ".lt",
-             "utils/ops.py:select_start_nodes  `td['action_mask'][..., 1:].float().sum(-1) < num_starts`",
-             ex.cmp_probe(REL, "select_start_nodes", "td['action_mask'][..., 1:].float().sum(-1)", "num_starts"))
+    def _calls(attr):
+        tree = ex.parse(REL)
+        fn = ex.find_function(tree, "select_start_nodes") if tree else None
+        if fn is None:
+            return None
+        return [n for n in ast.walk(fn) if isinstance(n, ast.Call) and isinstance(n.func, ast.Attribute) and n.func.attr == attr]
+
+    def clamp_min():
+        cs = _calls("clamp")
+        if cs is None or len(cs) != 1 or cs[0].args:
+            return None
+        kws = {k.arg: k.value for k in cs[0].keywords}
+        v = kws.get("min")
+        if set(kws) != {"min"} or not (isinstance(v, ast.Constant) and type(v.value) is int and v.value >= 0):
+            return None
+        return str(v.value)
+
+    def argsort_stable():
+        cs = _calls("argsort")
+        if cs is None or len(cs) != 1:
+            return None
+        kws = {k.arg: k.value for k in cs[0].keywords}
+        if "descending" in kws:
+            return None
+        v = kws.get("stable")
+        if v is None:
+            return "false"
+        return ("true" if v.value else "false") if isinstance(v, ast.Constant) and isinstance(v.value, bool) else None
+
+    ex.probe("opsOpClampMin", "Nat", "1",
+             "utils/ops.py:select_start_nodes (op)  `feasible.sum(-1, keepdim=True).clamp(min=1)`", clamp_min)
+    ex.probe("opsOpArgsortStable", "Bool", "true",
+             "utils/ops.py:select_start_nodes (op)  `torch.argsort((~feasible).int(), dim=-1, stable=True)`", argsort_stable)
     ex.probe("opsSampleNReplaceCmp", "Cmp", ".lt",
              "utils/ops.py:sample_n_random_actions  `n_valid_actions < n`",
              ex.cmp_probe(REL, "sample_n_random_actions", "n_valid_actions", "n"))
